@@ -114,13 +114,30 @@ func VxC03_Key() {
 	hb := vxByteIn("h.b", '0', ':')
 	vxAssume(hb >= '0' && hb <= '9')
 	p := vxByteIn("p", 'a', 'z')
-	pi, qi := vxChoice("path", 5), vxChoice("query", 5)
+	pi, qi := vxChoice("path", 7), vxChoice("query", 5)
 	hi := vxByteIn("q.hi", 0x80, 0xFF) // a raw non-ASCII query byte stays as it is
-	path := [...]string{"", "/", "/" + string([]byte{p}), "/a/../" + string([]byte{p}), "/./" + string([]byte{p})}[pi]
-	wantPath := [...]string{"/", "/", "/" + string([]byte{p}), "/" + string([]byte{p}), "/" + string([]byte{p})}[pi]
+	// shapes 5 and 6: a percent-escape of an arbitrary octet (any hex digit case) in the
+	// path, as url.Parse delivers it (Path decoded, RawPath only when not canonical)
+	x1, x2 := vxByte("p.x1"), vxByte("p.x2")
+	rawEsc := "/s%" + string([]byte{x1, x2})
+	if pi == 6 {
+		rawEsc += string([]byte{p})
+	}
+	path := [...]string{"", "/", "/" + string([]byte{p}), "/a/../" + string([]byte{p}), "/./" + string([]byte{p}), "", ""}[pi]
+	wantPath := [...]string{"/", "/", "/" + string([]byte{p}), "/" + string([]byte{p}), "/" + string([]byte{p}), "", ""}[pi]
+	rawPath := ""
+	if pi >= 5 {
+		vxAssume(vxIsHex(x1) && vxIsHex(x2))
+		pu, err := url.Parse("http://x.test" + rawEsc)
+		if err != nil {
+			vxStop()
+		}
+		path, rawPath = pu.Path, pu.RawPath
+		wantPath = vxRefNorm(rawEsc)
+	}
 	query := [...]string{"", "q=" + string([]byte{p}), "q=%7e", "q=%e9", "q=" + string([]byte{hi})}[qi]
 	wantQuery := [...]string{"", "?q=" + string([]byte{p}), "?q=~", "?q=%E9", "?q=" + string([]byte{hi})}[qi]
-	u := &url.URL{Scheme: scheme, Host: host, Path: path, RawQuery: query, Fragment: "frag"}
+	u := &url.URL{Scheme: scheme, Host: host, Path: path, RawPath: rawPath, RawQuery: query, Fragment: "frag"}
 	if vxChoice("userinfo", 2) == 1 {
 		u.User = url.UserPassword("u", "p") // not part of the key (and not of the asserted differences)
 	}
@@ -145,7 +162,9 @@ func VxC03_Method() {
 	m := vxStr("m", 1+vxChoice("len", 4))
 	hasRange := vxBool("range")
 	h := map[string][]string{}
-	h[vxHdrKey(hasRange, "Range")] = []string{"bytes=0-"}
+	// any non-empty Range value makes it a range request: unit names are case-insensitive
+	// and extensible (RFC 9110 section 14.1), the cache does not interpret them
+	h[vxHdrKey(hasRange, "Range")] = []string{vxStr("rv", 1+vxChoice("rlen", 7))}
 	ok := isRequestMethodUnderstood(&vxRequest{Method: m, Header: h})
 	vxCover("C03/method")
 	vxAssert(ok == vxAnd(m == "GET", !hasRange), "C03/method-gate")
